@@ -15,7 +15,8 @@ def plan(tier, seed):
                   dict(n=3, m=2, labels='ints', schemes='tiny', reuse=False),
                   dict(n=4, m=2, labels='ints', schemes='two', per=40, configs='det'),
                   dict(n=4, m=1, labels='ints', schemes='six_t'),
-                  dict(n=3, m=2, labels=alt, schemes='two')]
+                  dict(n=3, m=2, labels=alt, schemes='two'),
+                  dict(n=3, m=2, labels='ints', schemes='one', configs='det', premutate=True, reuse=False)]
     else:
         blocks = [dict(n=4, m=2, labels='ints', schemes='six', per=40), dict(n=3, m=3, labels='ints', schemes='four', per=40),
                   dict(n=5, m=1, labels='ints', schemes='six'), dict(n=4, m=2, labels=alt, schemes='two', per=40, configs='det'),
